@@ -3,6 +3,8 @@ import random as _pyrandom
 import numpy as np
 from .common import *          # noqa
 
+_REAL_SEED = np.random.seed
+
 META = {
     "explanation": "(a) Task(seed=s) for a symbolic integer s in [0, 2^32) (and s=None): the real Task constructor and "
                    "the real optimize() hand np.random.seed a value its documented contract accepts (None or an int in "
@@ -23,12 +25,14 @@ META = {
 }
 
 
-def ob_seed_contract(with_seed):
+def ob_seed_contract(with_seed, draw_in_hook=None):
     def f():
         events = []
 
         def on_seed(s):
             events.append(("seed", s))
+            if sym.MODE == "replay":
+                _REAL_SEED(s)          # the real numpy decides whether it accepts the value it is handed
         st = stubs.Stream("np")
         orig_unit = st.unit
 
@@ -39,15 +43,16 @@ def ob_seed_contract(with_seed):
         with env(stubs.numpy_stream_layer(lambda: st, on_seed=on_seed)):
             s = sym.integer("seed", 0, 2 ** 32 - 1) if with_seed else None
             t = make_task([cont()], lambda x, i: 0.0, seed=s)
-            opt = Scripted(M.BaseOptimizationConfig(population_size=2, fitness_error=None, max_cycles=1))
+            hook = (lambda o: np.random.random()) if draw_in_hook else None          # e.g. FireHawk, CoralReef draw here
+            opt = Scripted(M.BaseOptimizationConfig(population_size=2, fitness_error=None, max_cycles=1),
+                           before=hook if draw_in_hook == "before" else None,
+                           after=hook if draw_in_hook == "after" else None)
             try:
                 opt.optimize(t)
             except TypeError as e:
                 if sym.MODE == "replay":          # the real np.random.seed rejects the value it was handed
                     return Failure("np.random.seed-receives-a-non-integer", error=str(e)[:200])
                 raise
-            if sym.MODE == "replay":
-                return OK
             if not events or events[0][0] != "seed":
                 return Failure("no-seeding-before-the-first-draw", events=[e[0] for e in events])
             got = events[0][1]
@@ -64,7 +69,7 @@ def ob_seed_contract(with_seed):
     return f
 
 
-def ob_two_runs(names, n, cycles, helpers):
+def ob_two_runs(names, n, cycles, helpers, hook_draws=False):
     def f():
         results = []
         seed = sym.integer("seed", 0, 2 ** 32 - 1)
@@ -92,9 +97,15 @@ def ob_two_runs(names, n, cycles, helpers):
                             base = None
                         new.append(o._init_agent(base if base is not None and j % 2 == 0 else None))
                     o._greedy_select_population(new)
+                # the per-run hooks of an algorithm may draw too (FireHawk, CoralReef): the draw perturbs the first agent
+                marks = []
+                hook = (lambda o: marks.append(np.random.random())) if hook_draws else None
                 opt = Scripted(M.BaseOptimizationConfig(population_size=n, fitness_error=None, max_cycles=cycles),
-                               step=step)
-                results.append(opt.optimize(t))
+                               step=step, before=hook, after=hook)
+                res = opt.optimize(t)
+                results.append(res)
+                if hook_draws:
+                    res.rates.extend(marks)
         ra, rb = results
         if len(ra.evolution) != len(rb.evolution) or list(ra.rates) != list(rb.rates):
             return Failure("rates-differ", a=ra.rates, b=rb.rates)
@@ -124,7 +135,10 @@ def twin():
 
 def obligations(tier):
     th = tier == "thorough"
-    obs = [Ob("seed_contract[int]", ob_seed_contract(True), 120), Ob("seed_contract[None]", ob_seed_contract(False), 60)]
+    obs = [Ob("seed_contract[int]", ob_seed_contract(True), 120), Ob("seed_contract[None]", ob_seed_contract(False), 60),
+           Ob("seed_contract[int,draw-in-before_initialization]", ob_seed_contract(True, "before"), 120),
+           Ob("seed_contract[int,draw-in-after_initialization]", ob_seed_contract(True, "after"), 120),
+           Ob("two_runs[C,hooks-draw]", ob_two_runs(("C",), 2, 1, (), hook_draws=True), 600)]
     for names in (("C",), ("D3",), ("P3",), ("C", "B1")):
         obs.append(Ob(f"two_runs[{'+'.join(names)},plain]", ob_two_runs(names, 2, 1, ()), 600))
     obs.append(Ob("two_runs[C,selection,n=2]", ob_two_runs(("C",), 2, 1, ("selection",)), 900))
